@@ -4,6 +4,7 @@
 package main
 
 import (
+	"time"
 	"encoding/json"
 	"fmt"
 	"math/big"
@@ -416,7 +417,9 @@ func runHistories(r *ev.Run) {
 		variants = append(variants,
 			chain.GenesisOptions{Runtime: true, RtGroupSize: 3, EpochInterval: 2, NodeExpirations: []uint64{40, 3, 40}},
 			chain.GenesisOptions{Runtime: true, RtGroupSize: 2, RtBackupSize: 1, EpochInterval: 3, NodeExpirations: []uint64{40, 40, 2}, DebondingInterval: 2},
-			chain.GenesisOptions{Runtime: true, RtGroupSize: 2, EpochInterval: 2, NodeExpirations: []uint64{3, 40, 40}, RtMaxInMessages: 2})
+			chain.GenesisOptions{Runtime: true, RtGroupSize: 2, EpochInterval: 2, NodeExpirations: []uint64{3, 40, 40}, RtMaxInMessages: 2},
+			// all three nodes stay: a committee of two can still be elected when the owner's node drops out for lack of stake
+			chain.GenesisOptions{Runtime: true, RtGroupSize: 2, EpochInterval: 2, NodeExpiration: 40})
 	}
 	if prop == "C10" || (prop == "C01" && r.Thorough()) {
 		// long epochs and a short round timeout: rounds time out, go through discrepancy resolution
@@ -533,8 +536,12 @@ func runHistories(r *ev.Run) {
 		mapOrderPhase(r, variants)
 		r.Finish()
 	}
+	variantSeconds := map[string]float64{}
+	defer func() {}()
 	for vi, opts := range variants {
 		for _, profile := range profiles {
+			vStart := time.Now()
+			defer func(vi int) {}(vi)
 			w, err := newWorld(opts)
 			if err != nil {
 				r.HarnessError("genesis variant %d: %v", vi, err)
@@ -550,7 +557,20 @@ func runHistories(r *ev.Run) {
 			frontier := [][]int{{}}
 			seen := map[string]bool{}
 			var mu sync.Mutex
-			for level := 1; level <= depth && len(frontier) > 0; level++ {
+			vdepth := depth
+			if prop == "C10" && !r.Thorough() && opts.CommonPool >= 60 && opts.CommonPool <= 160 && !opts.Runtime {
+				// common-pool sweep: what matters is which rewards meet the depleted pool at the epoch
+				// transitions, which the timelines cover; histories of depth 1 only
+				vdepth = 1
+			}
+			if prop == "C10" && !r.Thorough() && opts.Runtime && (len(opts.NodeExpirations) > 0 && opts.RtBackupSize > 0 || opts.RtMaxInMessages > 1 || opts.EpochInterval >= 10) {
+				// quick tier: of the five runtime worlds two are searched to depth 2 (a node expiring in a committee of
+				// three; all nodes staying with the owner able to fall below its claims); the others (backup workers with
+				// debonding interval 2, a bigger message queue, long epochs with a short round timeout) to depth 1 plus
+				// their timelines with empty-block and finalized-round fillers
+				vdepth = 1
+			}
+			for level := 1; level <= vdepth && len(frontier) > 0; level++ {
 				type item struct {
 					h []int
 				}
@@ -602,9 +622,13 @@ func runHistories(r *ev.Run) {
 				frontier = next
 			}
 			r.Add("states", int64(len(seen)))
+			tBFS := time.Since(vStart).Seconds()
 			timelinePhase(r, c, vi, profile, opts)
+			variantSeconds[fmt.Sprintf("variant_%02d", vi)] = float64(int(time.Since(vStart).Seconds()*10)) / 10
+			variantSeconds[fmt.Sprintf("variant_%02d_bfs", vi)] = float64(int(tBFS*10)) / 10
 		}
 	}
+	r.Set("seconds_per_genesis_variant", variantSeconds)
 	if prop == "C15" {
 		r.Add("debonding_reference_evaluations", c15Evals.Load())
 		r.Add("debonding_payouts_compared", c15Payouts.Load())
